@@ -372,7 +372,7 @@ if "C12" in which:
     ])
 
 if "C14" in which:
-    put("C14", "", [
+    put("C14", "Async.LogTargets Async.ShutdownTargets Async.ShutdownProofs", [
         ("'in-flight requests complete': nothing inside a request looks at the stop listener - a handler run that completes without a "
          "shutdown request completes in exactly the same way (same result, same request state, same bytes read and written, same "
          "observations) whenever and however often shutdown is requested meanwhile", "handler_ignores_stop", "C14_inflight_handler_completes",
@@ -381,4 +381,14 @@ if "C14" in which:
          ["close_ignores_stop_stmt"]),
         ("a request blocked on its client is not aborted by the shutdown either: it keeps waiting", "handler_block", "C14_blocked_request_keeps_waiting",
          ["handler_block_stmt"]),
+        ("THE WHOLE CONNECTION: run it twice, once with no shutdown ever (w1), once with a shutdown requested at ANY moment (w2: any stop_at, "
+         "possibly already stopped; same client, transport scripts and log).  If the undisturbed run returns or ends up waiting for its client, "
+         "then either the shutdown made no difference (same outcome, same handler invocations, same transport state), or the second run RETURNED "
+         "and did so at a request boundary: its handler invocations are an initial segment of the undisturbed run's - each with the same request, "
+         "handler result and transport log before, after and at the end of its close() -, every one of them was closed (answered by its complete "
+         "epilogue: C07_connection_log), its transport log is a prefix of the undisturbed run's and it consumed no more input: no request is "
+         "started after the shutdown, none in flight is cut short or answered differently, nothing is written that would not have been written anyway",
+         "shutdown_cut", "C14_shutdown_cut", ["shutdown_cut_stmt"]),
+        ("non-vacuity: two keep-alive requests and an idle client; with the stop requested before scheduling step 2 the second run returns after "
+         "the FIRST request (1 of 2 invocations, 48 of 96 log bytes), the undisturbed run serves both and then waits", "shutdown_cut_ex", "C14_shutdown_cut_example"),
     ])
